@@ -33,7 +33,9 @@ def scrub(x: Any) -> Any:
         return [scrub(e) for e in x]
     if isinstance(x, dict):
         return {scrub(k) if isinstance(k, str) else k: scrub(v) for k, v in x.items()}
-    return x
+    if x is None or isinstance(x, (bool, int, float)):
+        return x
+    return _HEX32.sub("<id>", repr(x))  # arbitrary objects: their repr without addresses
 
 
 def viol(clause: str, witness: str, expected: Any, observed: Any, **extra: Any) -> dict:
@@ -51,9 +53,9 @@ def viol(clause: str, witness: str, expected: Any, observed: Any, **extra: Any) 
 
 
 def digest(x: Any) -> str:
-    return hashlib.sha1(
-        json.dumps(x, sort_keys=True, default=repr).encode(), usedforsecurity=False
-    ).hexdigest()[:16]
+    # (object addresses / uuid hex ids inside reprs are not owned by the harness)
+    text = _HEX32.sub("<id>", json.dumps(x, sort_keys=True, default=repr))
+    return hashlib.sha1(text.encode(), usedforsecurity=False).hexdigest()[:16]
 
 
 EXEC_DEADLINE_S = 45
